@@ -319,6 +319,8 @@ pub fn run_session(ctx: &mut Ctx, t: &mut Tape, mode: Mode) {
                             "C01:mismatch:root_extent_with_empty_ranges".to_string()
                         } else if has_reserved_word_as_word_token(lang, &inc_x, &text.bytes) {
                             "C01:mismatch:reserved_word_reused_as_word_token".to_string()
+                        } else if lname == "glr" && inc.root_node().has_error() {
+                            "C01:mismatch:glr_reuse_leaves_error".to_string()
                         } else if after_nt_extra {
                             "C01:mismatch:edit_right_after_nonterminal_extra".to_string()
                         } else {
